@@ -107,8 +107,9 @@ class ScriptedRNG(BaseRNG):
     the first option of positive probability is taken; the alternatives available at every point are
     recorded (ev["alts"]) so that the explorer can enumerate the whole tree."""
 
-    def __init__(self, script=(), qgrid=None, qseq=None):
+    def __init__(self, script=(), qgrid=None, qseq=None, min_p=0.0):
         super().__init__(0)
+        self.min_p = min_p          # options at or below this probability are not alternatives (the code's EPSILON)
         self.script = list(script)
         self.pos = 0
         self.qgrid = qgrid or {}
@@ -123,7 +124,7 @@ class ScriptedRNG(BaseRNG):
         return v
 
     def _pick(self, ev, pv):
-        alts = [i for i, x in enumerate(pv) if x > 0]
+        alts = [i for i, x in enumerate(pv) if x > self.min_p]
         ev["alts"] = alts
         return self._next(alts)
 
